@@ -366,6 +366,8 @@ func contractsFor(c *Ctx, prop string) *bounds.Hooks {
 		c.fragLoopsSeen = map[*ssa.BasicBlock]bool{}
 		c.lenPairsSeen = map[ssa.Instruction]bool{}
 		return mergeHooks(twoFragHooks(c, c.fragLoopsSeen), lenPrefixHooks(c, c.lenPairsSeen))
+	case "C17":
+		return c17Hooks(c, &c.c17Seen)
 	case "C13":
 		c.lenPairsSeen = map[ssa.Instruction]bool{}
 		return mergeHooks(lenPrefixHooks(c, c.lenPairsSeen), wClosedHooks(c, &c.wClosedSeen))
